@@ -58,6 +58,21 @@ def codec_attrs(an, fn, which):
                         if isinstance(base, ast.Name) and any(k == "param" and p == vparam or k == "expr" for k, p in value_sources(fn, base, payload[2])):
                             elementwise = True
             out[recv.attr] = out.get(recv.attr, False) or elementwise
+    # the bound method handed to functools.partial and applied per element later: partial(self.<attr>.<which>, cfg)
+    for x in ast.walk(fn.node):
+        if isinstance(x, ast.Call) and ast.unparse(x.func).split(".")[-1] == "partial" and x.args and isinstance(x.args[0], ast.Attribute) \
+                and x.args[0].attr == which and isinstance(x.args[0].value, ast.Attribute) and isinstance(x.args[0].value.value, ast.Name) \
+                and x.args[0].value.value.id == fn.self_name:
+            par = getattr(x, "_parent", None)
+            tgt = par.targets[0].id if isinstance(par, ast.Assign) and len(par.targets) == 1 and isinstance(par.targets[0], ast.Name) else None
+            applied = False
+            for y in ast.walk(fn.node):
+                if isinstance(y, (ast.GeneratorExp, ast.ListComp, ast.DictComp, ast.For)):
+                    for z in ast.walk(y):
+                        if isinstance(z, ast.Call) and isinstance(z.func, ast.Name) and any(
+                                k == "expr" and pl is x for k, pl in value_sources(fn, z.func, None)):
+                            applied = True
+            out[x.args[0].value.attr] = out.get(x.args[0].value.attr, False) or applied
     return out
 
 
@@ -139,6 +154,13 @@ def check_container_items_encoded(ctx):
                         if isinstance(x, ast.Call) and isinstance(x.func, ast.Attribute) and x.func.attr == which and isinstance(x.func.value, ast.Attribute) \
                                 and x.func.value.attr == attr and isinstance(x.func.value.value, ast.Name) and x.func.value.value.id == f.self_name:
                             hit = True
+                        # the codec applied through a local bound to functools.partial(self.<attr>.<which>, cfg)
+                        if isinstance(x, ast.Call) and isinstance(x.func, ast.Name):
+                            fs = sp.sources(x.func, sp.where.get(id(e)) or r)
+                            if fs and all(k == "expr" and isinstance(pl, ast.Call) and ast.unparse(pl.func).split(".")[-1] == "partial" and pl.args
+                                          and isinstance(pl.args[0], ast.Attribute) and pl.args[0].attr == which and isinstance(pl.args[0].value, ast.Attribute)
+                                          and pl.args[0].value.attr == attr for k, pl in fs):
+                                hit = True
                 if not hit:
                     missing.append(attr)
             ctx.ob("container.items-through-codec", f, r.ast, not missing,
